@@ -170,11 +170,16 @@ def _one_request(case, cfg, ta, ld, models, ranks_ok, res) -> bool:  # noqa: ANN
         streams = ([999] if int(cfg["stream_sel"] * 1000) % 3 == 0 else []) + all_streams
         if any(s not in _streams(ld.kept[r]) for r in ranks for s in streams):
             res.counters["requests_naming_a_stream_some_rank_lacks"] += 1
+    streams_given = None if streams is None else list(streams)       # what the caller wrote; the call gets the caller's own list object
+    asked_given = list(asked)
     ok, out = drv.guard(res, "get_idle_time_breakdown", ta.get_idle_time_breakdown, ranks=asked, streams=streams, visualize=False,
                         consecutive_kernel_delay=thr, **({"show_idle_interval_stats": True} if cfg.get("stats") else {}))
     if not ok:
         res.violations[-1].witness.update(ranks=ranks, streams=streams, thr=thr)
         return False
+    if streams != streams_given or asked != asked_given:
+        res.bad("arguments-left-alone", f"the call rewrote its arguments: streams {streams_given} -> {streams}, ranks {asked_given} -> {asked}")
+    streams = streams_given
     df = out[0]
     if str(df["idle_time"].dtype) == "object" or str(df["idle_time_ratio"].dtype) == "object":
         res.bad("numeric-columns", f"idle_time / idle_time_ratio columns are of dtype {df['idle_time'].dtype} / {df['idle_time_ratio'].dtype} (ranks asked {asked})")
